@@ -155,9 +155,11 @@ PROPS["C13"] = {
              "min-length {0,1,100,1024} x sizes {0, min-1, min, min+1, 4*min+57} x 8 content-type/filter combinations; 2 (quick) or 40 (thorough) PRNG bodies per cell. Oracle = reference table written from the statement "
              "(stored br, then stored gzip, verbatim; too small or filtered -> identity; br over gzip; neither accepted -> identity; sizes equal to or straddling the threshold accept either), best-compression pre-compression checked byte-for-byte against gzip level 9. "
              "Non-trivial = every cell except (no Accept-Encoding, raw only, not cacheable); distinct by cell x body seed."),
-    "assumptions": ["Fill is driven through the exported HTTPResponse API with an elton context; the per-server defaults (1 KiB when unset, filter) are checked end-to-end by the C05/C16 engines"],
+    "assumptions": ["Fill is driven through the exported HTTPResponse API with an elton context",
+                    "TestC13Server (real sockets): a server with compressMinLength unset (1 KiB default) / 100 / 2kb (= 2000 bytes, SI units) and filter unset / custom, created fresh (NewServer path) or updated in place (Update path), answers bodies around those thresholds for 5 content types, 6 Accept-Encoding values, cacheable or not, upstream identity or gzip as the same reference table says"],
     "exhaustive_part": "all cells of the decision table are enumerated in every run; bodies per cell are sampled",
     "jobs": [
+        {"engine": "netw", "test": "TestC13Server", "quick": {"shards": 8, "checks": 250, "timeout": 500}, "thorough": {"shards": 16, "checks": 8000, "timeout": 3400}},
         {"engine": "unit", "test": "TestC13Table", "rapid": False, "quick": {"shards": 11, "cases": 2, "timeout": 500}, "thorough": {"shards": 11, "cases": 40, "timeout": 3400}},
     ],
 }
@@ -166,9 +168,11 @@ PROPS["C14"] = {
     "rule": ("TestC14Exhaustive: every list of 1..3 locations over hosts {a.test,b.test} x prefixes {/a,/a/b,/b} (32 shapes -> 33 824 configs) x every server name list x 3 request hosts x 6 request URIs "
              "(thorough: + every list of 4 locations over 16 shapes); TestC14Random: up to 8 locations, duplicate names, 5 hosts, 7 prefixes, unknown names. Oracle = reference matcher (result matches and is of the best class present; nil iff nothing matches; unlisted never used). "
              "Non-trivial = >=2 matching locations of >=2 classes, or nothing listed matches while an unlisted location would. Exhaustive lookups are distinct by construction and counted by the test."),
-    "assumptions": ["the exported NewLocations(...).Get is the lookup the proxy uses (location.Get on the default list); end-to-end routing incl. the 5xx answer is exercised by the C15/C16 engines"],
+    "assumptions": ["the exported NewLocations(...).Get is the lookup the proxy uses (location.Get on the default list)",
+                    "TestC14Server (real sockets): 1-5 locations, each adding a request header naming itself, two servers listing subsets of them, 3-10 requests: the harness upstream's log tells which location handled a request (must be listed, matching, of the best class); with no match the client gets 5xx and the upstream sees nothing"],
     "exhaustive_part": "all configurations of up to 3 locations over the stated universe",
     "jobs": [
+        {"engine": "netw", "test": "TestC14Server", "quick": {"shards": 8, "checks": 150, "timeout": 500}, "thorough": {"shards": 16, "checks": 6000, "timeout": 3400}},
         {"engine": "unit", "test": "TestC14Exhaustive", "rapid": False, "quick": {"shards": 1, "timeout": 500}, "thorough": {"shards": 1, "timeout": 3400}},
         {"engine": "unit", "test": "TestC14Random", "quick": {"shards": 4, "checks": 20000, "timeout": 500}, "thorough": {"shards": 16, "checks": 300000, "timeout": 3400}},
     ],
